@@ -466,6 +466,7 @@ class Executor:
         self.map_order_all = False
         self.max_paths = 200000
         self.max_path_instrs = 3000000
+        self.want_models = 1
         self.init_done = False
         self.global_snapshot = None
         self.called = set()
@@ -1588,6 +1589,11 @@ class Executor:
                 rec['status'], rec['info'] = 'unsupported', 'z3: ' + str(ze)
             rec['trace'] = list(self.trace)
             rec['events'] = list(self.events)
+            if rec['status'] == 'ok' and self.want_models > 0 and any(e[0] == 'reach' for e in self.events):
+                mv = self.get_model_values()
+                if mv is not None:
+                    rec['model'] = mv
+                    self.want_models -= 1
             if self.inconclusive:
                 rec['inconclusive'] = list(self.inconclusive)
             self.stats.paths += 1
